@@ -47,6 +47,27 @@ def many(count, rng):
     return out
 
 
+def reuse(count, rng):
+    """the identification is reused between the same hosts: datagram 1 is completed (any order, duplicates before completion), then
+    datagram 2 - of another size - arrives under the same key, and then datagram 1's size again"""
+    out = []
+    for _ in range(count):
+        n = [rng.randrange(1, 6), rng.randrange(1, 9)]
+        pk = []
+        for d in (1, 2):
+            cuts = sorted(set([0, n[d - 1]] + [rng.randrange(1, n[d - 1]) for _ in range(rng.randrange(0, 4)) if n[d - 1] > 1]))
+            part = [{"d": d, "off": a, "len": b - a, "mf": b != n[d - 1]} for a, b in zip(cuts, cuts[1:])]
+            if len(part) == 1:
+                part = [{"d": d, "off": 0, "len": n[d - 1], "mf": True}] if False else part
+            rng.shuffle(part)
+            # duplicates only in front of the completing fragment
+            if len(part) > 1 and rng.random() < 0.5:
+                part.insert(rng.randrange(len(part) - 1) + 1, dict(part[0]))
+            pk += part
+        out.append({"n": n, "pkts": [p for p in pk if p["mf"] or p["off"]] if False else pk, "mode": "same_key", "scale": 1})
+    return out
+
+
 def nontrivial(s):
     fr = [p for p in s["pkts"] if p["d"] and (p["mf"] or p["off"])]
     offs = [p["off"] for p in fr if p["d"] == 1]
@@ -89,6 +110,7 @@ def run(tier):
            for order in ([7, 6, 5, 4, 3, 2, 1, 0], [0, 2, 4, 6, 1, 3, 5, 7], [3, 3, 0, 1, 2, 4, 5, 6, 7])]
     scen += big
     scen += many(800 if quick else 20000, rng)
+    scen += [x for x in reuse(600 if quick else 15000, rng) if all(p["mf"] or p["off"] for p in x["pkts"])]      # fragments only
     # the upper end of the quantifier: header + payload = 65535 octets exactly (payload 65515), one and two octets below it,
     # in several arrival orders (unit 8192 octets, the last unit cut short by `trim`)
     for trim in (21, 22, 23, 29):
